@@ -3,12 +3,14 @@
     (no Extract Constant, no mapping to OCaml int). *)
 Require Import ExtrOcamlBasic.
 From Coq Require Import NArith Decimal DecimalN.
-From MM Require Import Base.Prelude Sketch.SketchModel.
+From MM Require Import Base.Prelude Base.Families Sketch.SketchModel Unsync.UModel.
 
 Definition sk_table_list (sk : sketch) : list (N * N) := map_to_list (sk_table sk).
+Definition u_map_list (s : ustate) : list (N * uentry) := map_to_list (u_map s).
 
 Extraction Language OCaml.
-Set Extraction Output Directory ".".
 Extraction "model.ml"
   N.of_uint N.to_uint N.eqb N.ltb N.compare
-  sk_empty sk_step sk_table_list sk_sample sk_mask sk_tlen sk_size.
+  hasher_of weigher_of pred_of
+  sk_empty sk_step sk_table_list sk_sample sk_mask sk_tlen sk_size
+  urun_init ustep u_map_list.
